@@ -6,6 +6,7 @@ import (
 	"context"
 	"io/ioutil"
 	"os"
+	"path"
 
 	"github.com/golang/protobuf/ptypes/empty"
 	"go.uber.org/zap"
@@ -50,7 +51,9 @@ func (a *Auth) Get(ctx context.Context, req *GetAccountRequest) (resp *GetAccoun
 
 // saveFileHandler is the default handler for auth.saveFile, must call after auth.mu is locked
 func (a *Auth) saveFileHandler() error {
-	tmpfile, err := ioutil.TempFile("./", "gmqtt_password")
+	// write the file that Load reads, through a temporary file in the same directory.
+	pwdFile := a.passwordFile()
+	tmpfile, err := ioutil.TempFile(path.Dir(pwdFile), "gmqtt_password")
 	if err != nil {
 		return err
 	}
@@ -76,7 +79,7 @@ func (a *Auth) saveFileHandler() error {
 	}
 	tmpfile.Close()
 	// replace the old password file.
-	return os.Rename(tmpfile.Name(), a.config.PasswordFile)
+	return os.Rename(tmpfile.Name(), pwdFile)
 }
 
 // Update updates the password for the account.
